@@ -54,7 +54,7 @@ class ScriptedRS(np.random.RandomState):
 
 def call_real(seed, i, high, cache):
     try:
-        return int(with_timeout(1.0, lambda: eu.get_sub_seed(seed, i, high=high, cache=cache)))
+        return int(with_timeout(10.0, lambda: eu.get_sub_seed(seed, i, high=high, cache=cache)))
     except ValueError:
         return 'ValueError'
     except TypeError:
